@@ -173,3 +173,56 @@ def stmt_containing(fragment: str, kind=None):
             and not isinstance(n, (ast.If, ast.For, ast.While, ast.Try, ast.With)) if kind is None else \
             isinstance(n, kind) and fragment in ast.unparse(n)
     return f
+
+
+# ----------------------------------------------------------------------------- whole patches (the seeded changes under /verif/seeded)
+def apply_patch(p: Project, patch_text: str) -> Dict[str, str]:
+    """Apply a unified diff (paths `a/src/factorysimpy/<rel>`) to the current sources in memory.  Every hunk must match its context and
+    removed lines exactly where it says, or within +-40 lines of it; otherwise the patch is stale for this tree."""
+    import re
+    out: Dict[str, str] = {}
+    cur = None
+    hunks: List[list] = []
+    files = []
+    for line in patch_text.splitlines():
+        if line.startswith('+++ '):
+            m = re.match(r'\+\+\+ b/src/factorysimpy/(\S+)', line)
+            cur = m.group(1) if m else None
+            hunks = []
+            files.append((cur, hunks))
+        elif line.startswith('--- ') or line.startswith('diff ') or line.startswith('index '):
+            continue
+        elif line.startswith('@@') and cur is not None:
+            m = re.match(r'@@ -(\d+)(?:,\d+)? \+(\d+)', line)
+            hunks.append([int(m.group(1)), []])
+        elif cur is not None and hunks and (line[:1] in (' ', '+', '-') or line == ''):
+            hunks[-1][1].append(line if line else ' ')
+    for rel, hs in files:
+        if rel is None:
+            continue
+        mod = p.modules.get(rel)
+        if mod is None:
+            raise Stale(f'module {rel} missing')
+        lines = mod.src.split('\n')
+        offset = 0
+        for start, body in hs:
+            old = [l[1:] for l in body if l[0] in (' ', '-')]
+            new = [l[1:] for l in body if l[0] in (' ', '+')]
+            at = None
+            for d in sorted(range(-40, 41), key=abs):
+                i = start - 1 + offset + d
+                if 0 <= i and [x.rstrip() for x in lines[i:i + len(old)]] == [x.rstrip() for x in old]:
+                    at = i
+                    break
+            if at is None:
+                raise Stale(f'hunk at {rel}:{start} does not match the current tree')
+            lines[at:at + len(old)] = new
+            offset += len(new) - len(old)
+        out[rel] = '\n'.join(lines)
+        try:
+            compile(out[rel], rel, 'exec')
+        except SyntaxError as e:
+            raise Stale(f'patched {rel} does not compile: {e}')
+    if not out:
+        raise Stale('empty patch')
+    return out
